@@ -58,6 +58,12 @@
 EXTENDS Obs
 
 KS(ch) == SeqToSet(ch.ks)
+\* defchords v1: several physical keys may carry the same chord key ((chord g s) on lsft and on rsft): p.same lists
+\* [c |-> physical key, k |-> the key it stands for]; every rule is stated on the chord keys, so either physical key
+\* completes the chord.  (Environment assumption of the instances: the physical keys of one chord key are not down at
+\* the same time.)
+Canon(p, c) == LET I == {i \in DOMAIN p.same : p.same[i].c = c} IN
+               IF I = {} THEN c ELSE p.same[CHOOSE i \in I : TRUE].k
 FirstIdx(s, P(_)) == LET I == {i \in DOMAIN s : P(s[i])} IN
                      IF I = {} THEN 0 ELSE CHOOSE i \in I : \A j \in I : i <= j
 DropAt(s, i) == SubSeq(s, 1, i - 1) \o SubSeq(s, i + 1, Len(s))
@@ -117,9 +123,9 @@ MonIn(m, r) ==
   ELSE IF r.e \notin {"d", "u"} THEN Fail(m, "C09: input kind outside the instance")
   ELSE
     LET p == m.p
-        c == r.c
+        c == Canon(p, r.c)
         \* (v2: any queued event makes chord.rs look at the pending presses again on the next tick)
-        m0 == [m EXCEPT !.gapIn = 1, !.phys = IF r.e = "d" THEN @ \cup {r.c} ELSE @ \ {r.c},
+        m0 == [m EXCEPT !.gapIn = 1, !.phys = IF r.e = "d" THEN @ \cup {c} ELSE @ \ {c},
                         !.arr = @ \/ (m.p.ver = 2 /\ m.gst = "open")]
         G == SeqToSet(m.g)
     IN
